@@ -1,3 +1,3 @@
 import MosdnsVerif.Driver.Loop
-import MosdnsVerif.Driver.Handler
-def main : IO Unit := Driver.run Driver.Handler.handle
+import MosdnsVerif.Driver.C03
+def main : IO Unit := Driver.run Driver.C03.handle
